@@ -80,6 +80,7 @@ FS = [0.0, 0.1, 0.5, 1.0, 1.7, 0.25, 2.0]
 
 class H(Harness):
     ID = 'C18'
+    ANCHOR_FILES = ['epydemic/shuffle.py', 'epydemic/drawset.py']
     TIE_IMPORT = 'From EpyV Require Import Model.Shuffle Tie.C18.'
     CHECK_FN = 'EpyV.Tie.C18.check_case'
     QUICK_N = 700
